@@ -19,6 +19,20 @@
 (*   "ctx"    every value prints its input context: [&index,               *)
 (*            &index-in-file, file number, started n, ended n]             *)
 (*   "merge"  values are buffered, one array row at complete()             *)
+(* in front of which the --skip S --take T counters sit (cfg.skip,         *)
+(* cfg.take; take = -1: no --take): the first S values that reach them are *)
+(* dropped, the next T handed on, and from the T-th on the answer is       *)
+(* Break - which ends the reading of every input, not only of the one      *)
+(* being read (read_input returns Break, read_file hands it up through the *)
+(* directories, the loop over the operands stops).  idx counts the values  *)
+(* that reached the counters, so skipped = min(idx, S), passed = idx - S.  *)
+(*                                                                         *)
+(* Operands that are directories: the files below them are read depth      *)
+(* first, the entries of one directory in the order the file system lists  *)
+(* them - the environment's choice.  Lin(tree) is the set of orders the    *)
+(* environment can choose; a run is started on one of them (cfg.files is   *)
+(* that order), so everything stated about cfg.files holds for every order *)
+(* of every directory.                                                     *)
 (***************************************************************************)
 EXTENDS JsonLexer, JsonPrinter
 
@@ -26,7 +40,8 @@ EXTENDS JsonLexer, JsonPrinter
 CONSTANTS DevReadFaultAsEof,      \* a failing read is taken for end of input
           DevStderrToFd1,         \* main hands stdout to go() as the error stream
           DevValidateLate,        \* an invalid option is only noticed after the input has been read
-          DevIndexCountsSkipped   \* values dropped by --only-objects-and-arrays advance &index / &index-in-file
+          DevIndexCountsSkipped,  \* values dropped by --only-objects-and-arrays advance &index / &index-in-file
+          DevBreakEndsFileOnly    \* a Break ends only the input being read; the next operand is opened (the pinned tree, repaired by fe0a81c)
 
 VARIABLES cfg, phase, src, pos, lex, seen, lastAt, idx, fidx, buf, out, errOut, errErr, result, opened, pulled, dispatched, faultHit
 vars == <<cfg, phase, src, pos, lex, seen, lastAt, idx, fidx, buf, out, errOut, errErr, result, opened, pulled, dispatched, faultHit>>
@@ -54,11 +69,17 @@ Dispatch(c, s, evs, k) ==
             IF c.onlyObj /\ ~IsContainer(ev.v)
             THEN (IF DevIndexCountsSkipped THEN Dispatch(c, [s EXCEPT !.lastAt = ev.at, !.idx = @ + 1, !.fidx = @ + 1], evs, k + 1)
                   ELSE Dispatch(c, [s EXCEPT !.lastAt = ev.at], evs, k + 1))                  \* `continue`: counters untouched
-            ELSE IF c.mode = "merge" THEN Dispatch(c, [s EXCEPT !.buf = Append(@, ev.v), !.idx = @ + 1, !.fidx = @ + 1, !.lastAt = ev.at], evs, k + 1)
-            ELSE LET row == IF c.mode = "ctx" THEN CtxRow(s.idx, s.fidx, c.srcNo, s.lastAt, ev.at) ELSE ev.v
-                     w == WriteOut(s.out, RowBytes(row), c.wfault) IN
-                 IF w.failed THEN [s EXCEPT !.out = w.out, !.res = "err"]
-                 ELSE Dispatch(c, [s EXCEPT !.out = w.out, !.idx = @ + 1, !.fidx = @ + 1, !.lastAt = ev.at], evs, k + 1)
+            ELSE IF s.idx < c.skip                                                             \* --skip: dropped, counted
+                 THEN Dispatch(c, [s EXCEPT !.idx = @ + 1, !.fidx = @ + 1, !.lastAt = ev.at], evs, k + 1)
+            ELSE IF c.take # -1 /\ s.idx - c.skip >= c.take THEN [s EXCEPT !.res = "break"]   \* --take 0, or a value after a Break that ended one file only
+            ELSE LET last == c.take # -1 /\ s.idx - c.skip + 1 >= c.take IN                   \* this value completes the T rows: handed on, then Break
+                 IF c.mode = "merge" THEN (IF last THEN [s EXCEPT !.buf = Append(@, ev.v), !.idx = @ + 1, !.fidx = @ + 1, !.res = "break"]
+                                            ELSE Dispatch(c, [s EXCEPT !.buf = Append(@, ev.v), !.idx = @ + 1, !.fidx = @ + 1, !.lastAt = ev.at], evs, k + 1))
+                 ELSE LET row == IF c.mode = "ctx" THEN CtxRow(s.idx, s.fidx, c.srcNo, s.lastAt, ev.at) ELSE ev.v
+                          w == WriteOut(s.out, RowBytes(row), c.wfault) IN
+                      IF w.failed THEN [s EXCEPT !.out = w.out, !.res = "err"]
+                      ELSE IF last THEN [s EXCEPT !.out = w.out, !.idx = @ + 1, !.fidx = @ + 1, !.res = "break"]
+                      ELSE Dispatch(c, [s EXCEPT !.out = w.out, !.idx = @ + 1, !.fidx = @ + 1, !.lastAt = ev.at], evs, k + 1)
        ELSE \* a malformed region: --on-error
             CASE c.policy = "ignore" -> Dispatch(c, [s EXCEPT !.lastAt = ev.at, !.disp = @ + 1], evs, k + 1)
               [] c.policy = "panic" -> [s EXCEPT !.res = "err", !.disp = @ + 1]
@@ -97,6 +118,7 @@ Pull == /\ phase = "read"
                 /\ out' = d.out /\ buf' = d.buf /\ idx' = d.idx /\ fidx' = d.fidx /\ errOut' = d.errOut /\ errErr' = d.errErr
                 /\ lastAt' = d.lastAt /\ dispatched' = d.disp
                 /\ IF d.res = "err" THEN result' = "err" /\ phase' = "exit"
+                   ELSE IF d.res = "break" THEN result' = result /\ phase' = (IF DevBreakEndsFileOnly THEN "open" ELSE "complete")
                    ELSE IF nx.mode = "done" THEN result' = result /\ phase' = "open"
                    ELSE result' = result /\ phase' = "read"
                 /\ faultHit' = (faultHit \/ (cfg.rfault.src = src /\ cfg.rfault.at = pos))
@@ -115,6 +137,19 @@ ExitCode == IF result = "ok" THEN 0 ELSE 255
 \* what reaches the two file descriptors: rows and (policy stdout) diagnostics on 1; diagnostics (policy stderr) and the final message on 2
 Fd2Lines == (IF DevStderrToFd1 THEN 0 ELSE errErr) + (IF result = "err" THEN 1 ELSE 0)
 Fd1Diagnostics == errOut + (IF DevStderrToFd1 THEN errErr ELSE 0)
+
+\* ---------------------------------------------------------------- directory operands
+\* An operand tree: a sequence (the command line's order) of nodes; a node is [leaf |-> i] (the i-th file) or [dir |-> <<nodes>>] (a directory
+\* with these entries, listed by the file system in an order of its choosing).  Lin: the orders in which the files can be read.
+Perms(n) == {f \in [1..n -> 1..n] : \A i, j \in 1..n : f[i] = f[j] => i = j}
+RECURSIVE LinNode(_), LinInOrder(_, _, _)
+LinInOrder(nodes, f, i) == IF i > Len(nodes) THEN {<<>>} ELSE {a \o b : a \in LinNode(nodes[f[i]]), b \in LinInOrder(nodes, f, i + 1)}
+LinNode(n) == IF "leaf" \in DOMAIN n THEN {<<n.leaf>>}
+              ELSE UNION {LinInOrder(n.dir, f, 1) : f \in Perms(Len(n.dir))}
+Lin(tree) == LinInOrder(tree, [i \in 1..Len(tree) |-> i], 1)
+RECURSIVE LeavesOf(_, _)
+LeavesOf(nodes, i) == IF i > Len(nodes) THEN <<>>
+                      ELSE (IF "leaf" \in DOMAIN nodes[i] THEN <<nodes[i].leaf>> ELSE LeavesOf(nodes[i].dir, 1)) \o LeavesOf(nodes, i + 1)
 
 \* ---------------------------------------------------------------- references (functional, fault free)
 RECURSIVE RowsOf(_, _)
